@@ -49,14 +49,17 @@ def _structural_desc(shape):
     return anc, prod
 
 
-def check_program(prog, provided, select, runner):
-    """Run one program on the implementation and compare with the reference.  Returns [(sig, msg)]."""
+def check_program(prog, provided, select, runner, ref_prog=None):
+    """Run one program on the implementation and compare with the reference.  Returns [(sig, msg)].
+    ``ref_prog``: the flat program the reference evaluates when ``prog`` is a nested form of it."""
     out = []
+    run_prog = prog
+    prog = ref_prog or prog
     ref_values, ref_calls, unsat = eval_dag(prog, provided)
     exp_values = ref_values if select is None else {k: v for k, v in ref_values.items() if k in select}
     h = H()
     try:
-        g = build(prog, h)
+        g = build(run_prog, h)
     except Exception as e:  # noqa: BLE001
         return [({"symptom": "build-exception", "type": type(e).__name__}, f"valid program rejected at construction: {type(e).__name__}: {e}")]
     inputs = {k: canon(v) for k, v in provided.items()}
@@ -208,6 +211,21 @@ def run_shard(shard):
                             acc.sample({"program": prog, "provided": jsonable(prov), "select": select, "runner": runner})
                         for sig, msg in vs:
                             acc.violation(sig, {"program": prog, "provided": jsonable(prov), "select": select, "runner": runner}, msg)
+                        # the same acyclic graph with its first consumer of a bound input wrapped as a nested graph whose own
+                        # binding differs: the enclosing graph's binding is the one in force (bound value precedence through nesting)
+                        bound_exts = [e for e, srcs in ext_src.items() if "B" in srcs and "D" not in srcs]  # (default + inner binding is judged by C05)
+                        if bound_exts and not omit and not none_variant and order == ords[0]:
+                            from . import c05
+
+                            e0_ = bound_exts[0]
+                            j = next(jj for jj, (ps, _) in enumerate(shape) if e0_ in ps)
+                            nested = c05.wrap(prog, [prog["nodes"][j]["id"]], "w1")
+                            wn = next(sp for sp in nested["nodes"] if sp["id"] == "w1")
+                            wn["inner"]["bind"] = {e0_: ["bound-inner", e0_]}
+                            acc.evaluations += 1
+                            acc.counters["runs_nested_with_inner_and_outer_binding"] += 1
+                            for sig, msg in check_program(nested, prov, None, runner, ref_prog=prog):
+                                acc.violation({**sig, "nested": True}, {"program": nested, "ref_program": prog, "provided": jsonable(prov), "select": None, "runner": runner}, "nested form with an inner binding of the same name: " + msg)
     return acc
 
 
@@ -216,4 +234,4 @@ def coverage_extra(acc, tier, seed):
 
 
 def replay(rep):
-    return [m for _, m in check_program(rep["program"], rep["provided"], rep.get("select"), rep["runner"])]
+    return [m for _, m in check_program(rep["program"], rep["provided"], rep.get("select"), rep["runner"], rep.get("ref_program"))]
